@@ -231,14 +231,18 @@ def run(ctx):
                         paths = ["/fr/base"] + ["/fr/d/" + fn for (fn, _) in FRAME_FUNS[1:]]
                         want = dict(zip(paths, r["value"]))
                         import dds as _dds
-                        here = dict((p_, frame_text(_dds.load(p_))) for p_ in paths)
+
+                        def _safe(fn_):
+                            try:
+                                return fn_()
+                            except BaseException as e_:
+                                return "EXC:%s:%s" % (type(e_).__name__, str(e_)[:120])
+                        here = dict((p_, _safe(lambda: frame_text(_dds.load(p_)))) for p_ in paths)
                         cp = subprocess.run([sys.executable, "-B", "-c", CHILD % (common.REPO, os.path.join(common.ROOT, "harness", "rtlib")),
                                              os.path.join(base, "si"), os.path.join(base, "sd"), json.dumps(paths)], capture_output=True, text=True, timeout=300)
                         lines = [l for l in cp.stdout.splitlines() if l.startswith("RESULT ")]
-                        if not lines:
-                            raise common.Infra("the child process of the data-frame stratum failed: " + cp.stderr[-500:])
-                        there = json.loads(lines[-1][7:])
-                        files = dict((p_, frame_text(pandas.read_parquet(os.path.join(base, "sd", p_.lstrip("/"))))) for p_ in paths)
+                        there = json.loads(lines[-1][7:]) if lines else dict((p_, "EXC:" + (cp.stderr.strip().splitlines() or ["no output"])[-1][:200]) for p_ in paths)
+                        files = dict((p_, _safe(lambda: frame_text(pandas.read_parquet(os.path.join(base, "sd", p_.lstrip("/")))))) for p_ in paths)
                         bad = None
                         for p_ in paths:
                             for who, got in (("dds.load in the same process", here), ("dds.load in another process", there), ("the parquet file under the data directory", files)):
